@@ -501,11 +501,7 @@ func (g *Gen) lockOrder(key string, common *ssa.CallCommon, st *State, reach str
 		return
 	}
 	held := func(i int) string {
-		k := "lock.held." + strings.TrimSpace(names[i])
-		if v, ok := st.ghost[k]; ok {
-			return v
-		}
-		return "false"
+		return g.ghostGet(st, "lock.held."+strings.TrimSpace(names[i]))
 	}
 	if op == "lock" {
 		var none []string
@@ -516,10 +512,103 @@ func (g *Gen) lockOrder(key string, common *ssa.CallCommon, st *State, reach str
 		g.safeCtr["lockorder"]++
 		g.addObl("lock-order", fmt.Sprint(n), implies(reach, and(none...)), pos, "acquiring "+field+": neither it nor a lock that must be taken after it ("+order+") is held", nil)
 		st.ghost["lock.held."+field] = "true"
+		if key != "sync.(*RWMutex).RLock" && !(key != "sync.(*RWMutex).Lock" && key != "sync.(*Mutex).Lock" && wrapperIsRead(common.StaticCallee())) {
+			st.ghost["lock.wheld."+field] = "true"
+		}
 		g.trusted["lock order checked for nestings inside one function and its callees (locks held by callers are not tracked; calls through function values only as far as the VTA call graph resolves them)"] = true
 	} else {
 		st.ghost["lock.held."+field] = "false"
+		st.ghost["lock.wheld."+field] = "false"
 	}
+}
+
+// wrapperIsRead: the lock wrapper takes the read side (RLock).
+func wrapperIsRead(f *ssa.Function) bool {
+	if f == nil {
+		return false
+	}
+	for _, b := range f.Blocks {
+		for _, in := range b.Instrs {
+			if c, ok := in.(*ssa.Call); ok {
+				if sc := c.Call.StaticCallee(); sc != nil && sc.Pkg != nil && sc.Pkg.Pkg.Path() == "sync" && sc.Name() == "RLock" {
+					return true
+				}
+			}
+		}
+	}
+	return false
+}
+
+// guardedWrite: with "opt: guarded=f1:lockA;f2:lockB" every write to struct field f1 (the field itself,
+// an element of the slice it holds, or an in-place append to it) is an obligation: lockA is held for
+// writing at that point (lock names as in lock-order).
+func (g *Gen) guardedWrite(v ssa.Value, st *State, reach string, pos token.Pos, what string) {
+	spec := g.con.Opts["guarded"]
+	if spec == "" {
+		return
+	}
+	f := g.guardedFieldOf(v, 0)
+	if f == "" {
+		return
+	}
+	for _, pair := range strings.Split(spec, ";") {
+		fld, lock, ok := strings.Cut(strings.TrimSpace(pair), ":")
+		if !ok || strings.TrimSpace(fld) != f {
+			continue
+		}
+		lock = strings.TrimSpace(lock)
+		held := g.ghostGet(st, "lock.wheld."+lock)
+		n := g.safeCtr["guarded"]
+		g.safeCtr["guarded"]++
+		g.addObl("lock-order", fmt.Sprintf("guard.%d", n), implies(reach, held), pos, what+" "+f+": "+lock+" is held for writing", nil)
+	}
+}
+
+// guardedFieldOf: the struct field (by name) whose storage the address or slice value denotes.
+func (g *Gen) guardedFieldOf(v ssa.Value, depth int) string {
+	if depth > 6 {
+		return ""
+	}
+	switch x := v.(type) {
+	case *ssa.FieldAddr:
+		if pt, ok := x.X.Type().Underlying().(*types.Pointer); ok {
+			if stt, ok := pt.Elem().Underlying().(*types.Struct); ok {
+				return stt.Field(x.Field).Name()
+			}
+		}
+	case *ssa.IndexAddr:
+		return g.guardedFieldOf(x.X, depth+1)
+	case *ssa.Slice:
+		return g.guardedFieldOf(x.X, depth+1)
+	case *ssa.UnOp:
+		if x.Op != token.MUL {
+			return ""
+		}
+		switch a := x.X.(type) {
+		case *ssa.FieldAddr:
+			if _, ok := x.Type().Underlying().(*types.Slice); ok {
+				return g.guardedFieldOf(a, depth+1)
+			}
+		case *ssa.Alloc:
+			// a local that holds (a reslice of) the field's slice
+			if rs := a.Referrers(); rs != nil {
+				for _, r := range *rs {
+					if s, ok := r.(*ssa.Store); ok && s.Addr == a {
+						if _, isSlice := s.Val.Type().Underlying().(*types.Slice); isSlice {
+							if f := g.guardedFieldOf(s.Val, depth+1); f != "" {
+								return f
+							}
+						}
+					}
+				}
+			}
+		}
+	case *ssa.Call:
+		if b, ok := x.Call.Value.(*ssa.Builtin); ok && b.Name() == "append" && len(x.Call.Args) > 0 {
+			return g.guardedFieldOf(x.Call.Args[0], depth+1)
+		}
+	}
+	return ""
 }
 
 // lockOrderCallee: a call made while a lock of the order is held must not (transitively, per the
@@ -534,6 +623,26 @@ func (g *Gen) lockOrderCallee(callee *ssa.Function, st *State, reach string, pos
 	for i := range names {
 		names[i] = strings.TrimSpace(names[i])
 	}
+	if op, _ := lockWrapper(callee); op != "" {
+		return // handled as a lock operation
+	}
+	// a callee whose lock contract says the caller holds a lock for writing
+	ck := funcKey(callee)
+	for _, k := range g.cs.Order {
+		if k != ck && !strings.HasPrefix(k, ck+"@") {
+			continue
+		}
+		for _, h := range strings.Split(g.cs.Funcs[k].Opts["holds"], ",") {
+			h = strings.TrimSpace(h)
+			if h == "" {
+				continue
+			}
+			held := g.ghostGet(st, "lock.wheld."+h)
+			n := g.safeCtr["guarded"]
+			g.safeCtr["guarded"]++
+			g.addObl("lock-order", fmt.Sprintf("guard.%d", n), implies(reach, held), pos, "calling "+callee.String()+", which expects "+h+" to be held for writing by its caller", nil)
+		}
+	}
 	anyHeld := false
 	for _, n := range names {
 		if v, ok := st.ghost["lock.held."+n]; ok && v != "false" {
@@ -542,9 +651,6 @@ func (g *Gen) lockOrderCallee(callee *ssa.Function, st *State, reach string, pos
 	}
 	if !anyHeld {
 		return
-	}
-	if op, _ := lockWrapper(callee); op != "" {
-		return // handled as a lock operation
 	}
 	for j, n := range names {
 		if !strings.Contains(n, ".") {
@@ -745,6 +851,7 @@ func (g *Gen) builtin(in *ssa.Call, b *ssa.Builtin, common *ssa.CallCommon, args
 		}
 		g.define(in, cur)
 	case "append":
+		g.guardedWrite(common.Args[0], st, reach, pos, "append into the backing array of")
 		g.appendCall(in, common, args, st, reach, pos)
 	case "copy":
 		g.copyCall(in, common, args, st, reach, pos)
